@@ -3,7 +3,7 @@ SPEC = {
     "id": "C13",
     "coq_targets": ["theories/Network/Props_C13.vo", "theories/Network/Findings.vo", "theories/Network/Cases.vo"],
     "props": "theories/Network/Props_C13.v",
-    "harness": [{"bin": "h_network", "n": {"quick": 360, "thorough": 6000}, "args": ["--mode", "c13"],
+    "harness": [{"bin": "h_network", "n": {"quick": 300, "thorough": 6000}, "args": ["--mode", "c13"],
                  "known_bits": {16: "C13-shortcut-rejected", 32: "C13-peering-unsupported", 64: "C13-peer-link-segment-change"}}],
     "shard_eval": "coqtop",
     "rule": "pocketscion topologies (directed shortcut/peering/on-path/multi-core/two-ISD shapes, sampled small DAG family with permuted interface numbering, random up to 12 [20] ASes); every case = topology + packet + clock + injection point; packets are offered paths, reverses of arrived packets, and mutated ones (single-field corruptions, spliced/recombined authentic hop fields, link down, clock around timestamp/expiry, wrong ingress point, mid-path injection, pointers, destination); non-trivial = at least 2 hop fields; distinct by full case text",
